@@ -96,6 +96,17 @@ impl DependencyGraph {
             }
         };
 
+        // Verification hook: what the loop asked the component database, by raw component id.
+        #[cfg(pavex_verif)]
+        let verif_raw = |id: ComponentId| -> u32 { id.into_raw().into_u32() };
+        #[cfg(pavex_verif)]
+        let mut verif_deps: Vec<(u32, Vec<u32>)> = Vec::new();
+        #[cfg(pavex_verif)]
+        let mut verif_inputs: Vec<u32> = Vec::new();
+        #[cfg(pavex_verif)]
+        let mut verif_eh: Vec<(u32, u32)> = Vec::new();
+        #[cfg(pavex_verif)]
+        let mut verif_tr: Vec<(u32, Vec<u32>)> = Vec::new();
         loop {
             while let Some(node_to_be_visited) = nodes_to_be_visited.pop() {
                 let (component_id, neighbour_index) = (
@@ -103,6 +114,12 @@ impl DependencyGraph {
                     node_to_be_visited.neighbour,
                 );
                 let current_index = add_node(&mut graph, component_id2node(component_id));
+                #[cfg(pavex_verif)]
+                if matches!(graph[current_index], DependencyGraphNode::Input { .. })
+                    && !verif_inputs.contains(&verif_raw(component_id))
+                {
+                    verif_inputs.push(verif_raw(component_id));
+                }
                 if let Some(neighbour_index) = neighbour_index {
                     match neighbour_index {
                         VisitorNeighbour::Parent(parent_index) => {
@@ -170,12 +187,16 @@ impl DependencyGraph {
                             p.input_types().into_iter().cloned().collect()
                         }
                     };
+                    #[cfg(pavex_verif)]
+                    verif_deps.push((verif_raw(component_id), Vec::new()));
                     for input_type in input_types {
                         if let Some((constructor_id, _)) = constructible_db.get(
                             component_scope,
                             &input_type,
                             component_db.scope_graph(),
                         ) {
+                            #[cfg(pavex_verif)]
+                            verif_deps.last_mut().unwrap().1.push(verif_raw(constructor_id));
                             nodes_to_be_visited.insert(VisitorStackElement {
                                 component_id: constructor_id,
                                 neighbour: Some(VisitorNeighbour::Child(current_index)),
@@ -210,6 +231,8 @@ impl DependencyGraph {
                         break 'inner;
                     };
                     if let Some(error_handler_id) = component_db.error_handler_id(component_id) {
+                        #[cfg(pavex_verif)]
+                        verif_eh.push((verif_raw(component_id), verif_raw(*error_handler_id)));
                         nodes_to_be_visited.insert(VisitorStackElement {
                             component_id: *error_handler_id,
                             neighbour: Some(VisitorNeighbour::Parent(node_index)),
@@ -233,6 +256,8 @@ impl DependencyGraph {
                     let Some(transformer_ids) = component_db.transformer_ids(component_id) else {
                         break 'inner;
                     };
+                    #[cfg(pavex_verif)]
+                    verif_tr.push((verif_raw(component_id), Vec::new()));
                     for transformer_id in transformer_ids {
                         // Not all transformers might be relevant to this `CallGraph`, we need to take their scope into account.
                         let transformer_scope_id = component_db.scope_id(*transformer_id);
@@ -246,6 +271,8 @@ impl DependencyGraph {
                                 },
                             );
                             graph.update_edge(node_index, transformer_node_index, ());
+                            #[cfg(pavex_verif)]
+                            verif_tr.last_mut().unwrap().1.push(verif_raw(*transformer_id));
                         }
                     }
                 }
@@ -259,6 +286,32 @@ impl DependencyGraph {
             }
         }
 
+        #[cfg(pavex_verif)]
+        {
+            let comp = |i: NodeIndex| match &graph[i] {
+                DependencyGraphNode::Compute { component_id } => Some(verif_raw(*component_id)),
+                DependencyGraphNode::Input { .. } => None,
+            };
+            let nodes: Vec<u32> = graph.node_indices().filter_map(comp).collect();
+            let edges: Vec<(u32, u32)> = graph
+                .edge_indices()
+                .filter_map(|e| {
+                    let (a, b) = graph.edge_endpoints(e).unwrap();
+                    Some((comp(a)?, comp(b)?))
+                })
+                .collect();
+            crate::compiler::verif::dump_line(format!(
+                "{{\"ev\":\"depgraph\",\"root\":{},\"observers\":{:?},\"inputs\":{:?},\"deps\":{:?},\"eh\":{:?},\"tr\":{:?},\"nodes\":{:?},\"edges\":{:?}}}",
+                verif_raw(root_id),
+                error_observer_ids.iter().map(|&i| verif_raw(i)).collect::<Vec<_>>(),
+                verif_inputs,
+                verif_deps.iter().map(|(c, d)| (*c, d.clone())).collect::<Vec<_>>(),
+                verif_eh,
+                verif_tr.iter().map(|(c, d)| (*c, d.clone())).collect::<Vec<_>>(),
+                nodes,
+                edges
+            ).replace('(', "[").replace(')', "]"));
+        }
         Self { graph }
     }
 
